@@ -61,7 +61,7 @@ def model_check(res, tier):
         if st["violated"]:
             res.drift.append({"model": "Decoder len=%d" % ln0, "violated": st["violated"]})
         res.add_mc("Decoder R=3 len=%d pk=2 fail=0 cb<=4" % ln0, st)
-    for w, f in (("W_Starved", 0), ("W_Wait", 0), ("W_Err", 3)):
+    for w, f in (("W_Starved", 0), ("W_Wait", 0), ("W_Err", 3), ("W_WaitGone", 0)):
         tlc_check("MC_Decoder.tla", write_cfg("Decoder_%s.cfg" % w, cfg(3, 5, 2, f, 2, 4, False, "VIEW View\nINVARIANT " + w, spec="Spec")),
                   workers=4, timeout=600, expect_violation=w, tag="c10w")
 
@@ -94,6 +94,14 @@ def generate(tier, rng):
     scen.append({"r": 3, "len": 30, "pk": 2, "fail": 0, "nf": 2, "src": "directed-idle", "eos": 1,
                  "steps": [{"act": "Play", "rejected": False}] + [{"act": "DStep"}] * 5 + [{"act": "Pause"}, {"act": "Callback"}] + [{"act": "DStep"}] * 24
                           + [{"act": "Stop"}, {"act": "Callback"}] + [{"act": "DStep"}] * 3})
+    # directed: a paused stream is told to resume at a clock time and the clock goes away - the sound is cancelled and the
+    # thread has to end
+    # (... within the ring capacity + 3 further iterations, as after a stop: the history grants it more than that)
+    for r, ln in ((3, 30), (4, 6)):
+        scen.append({"r": r, "len": ln, "pk": 2, "fail": 0, "nf": 2, "src": "directed-wait-cancelled", "eos": 1,
+                     "steps": [{"act": "Play", "rejected": False}] + [{"act": "DStep"}] * 5 + [{"act": "Pause"}, {"act": "Callback"}]
+                              + [{"act": "DStep"}] * 3 + [{"act": "WaitGone"}, {"act": "Callback"}, {"act": "Callback"}, {"act": "Callback"}]
+                              + [{"act": "DStep"}] * 12})
     return scen
 
 
